@@ -1357,6 +1357,14 @@ impl Session {
         Ok(())
     }
 
+    /// Verification hook: sizes of the stream table and of the receive-channel table.
+    #[cfg(feature = "verif-hooks")]
+    pub async fn verif_table_sizes(&self) -> (usize, usize) {
+        let a = self.streams.read().await.len();
+        let b = self.stream_receive_tx.read().await.len();
+        (a, b)
+    }
+
     /// Get session sequence number
     pub fn seq(&self) -> u64 {
         self.seq.load(std::sync::atomic::Ordering::Relaxed)
